@@ -21,7 +21,7 @@
 (*   C08  all variants of one (grammar, input) agree                         *)
 (*   C05  packed and -u variants agree                                       *)
 (***************************************************************************)
-EXTENDS LRDriver, Earley, Json
+EXTENDS LRDriver, Earley, PrecClimb, Json
 
 Cases == JsonDeserialize("tcases.json")
 Trace == ndJsonDeserialize("trace.ndjson")
@@ -30,6 +30,9 @@ Trace == ndJsonDeserialize("trace.ndjson")
 STab == TLCEval([i \in DOMAIN Cases |-> TLCEval(SpecOf(Cases[i].g))])
 \* is the current case's grammar conflict-free LALR(1) (by the specification's definition)?
 \* (STab is referenced directly with the state variable, see DESIGN.md 0.3)
+
+\* does the case's grammar have operator shape (PrecClimb.tla)?
+SShape == TLCEval([i \in DOMAIN Cases |-> OpShape(Cases[i].g)])
 
 VARIABLES l, phase, cs, variant, input, stk, vstk, la, laval, fetched, dok, reds, verdict, val, nfetch, ref, prev, eref
 vars == <<l, phase, cs, variant, input, stk, vstk, la, laval, fetched, dok, reds, verdict, val, nfetch, ref, prev, eref>>
@@ -172,6 +175,12 @@ C04_Run == (Ended /\ STab[cs].decided /\ ~STab[cs].conflictfree /\ SRef.status #
               /\ (verdict = "syntaxerr") <=> (SRef.status = "error")
               /\ reds = SRef.reds
               /\ nfetch = SRef.pos
+\* C04, last sentence, without LR machinery: an operator grammar groups every expression the way the
+\* declarations say - the reductions of the real run are the post-order of the precedence-climbing tree
+C04_ClimbRun == (Ended /\ SShape[cs]) =>
+              /\ verdict \in {"accept", "syntaxerr"}
+              /\ (verdict = "accept") <=> (Climb(Gc, input).status = "accept")
+              /\ (verdict = "accept") => reds = Climb(Gc, input).reds
 C07_Value == (Ended /\ verdict = "accept" /\ Cases[cs].valued /\ dok /\ Len(vstk) = 1) =>
                 AsStr(vstk[1], TagOf(cs, StartSym(Gc))) = val
 C08_Agree == (Ended /\ ref.variant # variant) => SameRun(Sum, ref)
